@@ -33,6 +33,7 @@ def main():
     # ---- unit level: _check_message_formats on synthetic ctx / message / flags
     cases = C.corpus_cases() + [C.gen_case(rng) for _ in range(n_unit)]
     lines, outs, runs = [], [], []
+    slines, souts = [], []          # the brace kinds once more, as raw strings (the model parses them itself)
     for case in cases:
         out, calls = C.run_unit(case)
         runs.append((case, calls, out))
@@ -49,8 +50,15 @@ def main():
             except Exception as exc:                       # the harness' own calls into the real parser
                 lines.append('fmtcheck bad-case')
                 stats['encode-failed:' + type(exc).__name__] += 1
+            if C.has_brace(case):
+                try:
+                    slines.append(C.encode(case, raw=True))
+                    souts.append(out)
+                except Exception as exc:
+                    stats['encode-failed:' + type(exc).__name__] += 1
     if driver_ok:
         chk.stream('fmtcheck-unit', lines, outs)
+        chk.stream('fmtcheck-unit-strings', slines, souts)
         ll, lo = C.lastint_cases(rng, n_lastint)
         chk.stream('fmtcheck-lastint', ll, lo)
     else:
@@ -63,6 +71,7 @@ def main():
     e2e_runs = []
     try:
         lines, outs = [], []
+        slines, souts = [], []
         for _ in range(n_files):
             fcases, pf, template, charset = C.gen_file(rng, per_file)
             fouts, per = C.run_e2e(fcases, pf, template, charset, work)
@@ -74,8 +83,12 @@ def main():
                 outs.append(out)
                 if driver_ok:
                     lines.append(C.encode_e2e(case, pf))
+                    if C.has_brace(case):
+                        slines.append(C.encode_e2e(case, pf, raw=True))
+                        souts.append(out)
         if driver_ok:
             chk.stream('fmtcheck-e2e', lines, outs)
+            chk.stream('fmtcheck-e2e-strings', slines, souts)
     finally:
         shutil.rmtree(work, ignore_errors=True)
 
